@@ -191,17 +191,21 @@ def rule_ndvmap(ctx) -> RuleResult:
             res.find("H5Writer", "write_data_values", f"NaN substitution guarded by `{guard}`", f"{wd.module.relpath}:{subst[1].lineno}",
                      "the substitution is skipped for some numeric data")
     uc = p.func("H5Writer.update_concatenated_field")
-    subs = [_mask_assign(s, "values") for s in ast.walk(uc.node) if isinstance(s, ast.stmt)]
+    # whatever the local holding the channel's values is called: every `X[np.isnan(X)] = ...` / np.where form on a local of the function
+    uc_locals = {t.id for a in ast.walk(uc.node) if isinstance(a, ast.Assign) for t in a.targets if isinstance(t, ast.Name)}
+    subs = [_mask_assign(s, v) for s in ast.walk(uc.node) if isinstance(s, ast.stmt) for v in sorted(uc_locals)]
     subs = [s for s in subs if s is not None]
     ok = bool(subs) and all(unparse(s) == "FLOAT_NDV" for s in subs)
     res.inst(f"update_concatenated_field: values[isnan] = {[unparse(s) for s in subs]}", nontrivial=True, ok=ok)
     if not ok:
         res.find("H5Writer", "update_concatenated_field", "float NaN not replaced by FLOAT_NDV", uc.where, "concatenated float data store raw NaN")
-    for spec, var in (("H5Reader.fetch_values", "values"), ("H5Reader.fetch_concatenated_values", "attribute")):
+    for spec in ("H5Reader.fetch_values", "H5Reader.fetch_concatenated_values"):
         fn = p.func(spec)
         found = False
+        var = "<array>"
         for a in ast.walk(fn.node):
-            if isinstance(a, ast.Assign) and isinstance(a.targets[0], ast.Subscript) and unparse(a.targets[0].value) == var and unparse(a.value) in ("np.nan", "numpy.nan"):
+            if isinstance(a, ast.Assign) and isinstance(a.targets[0], ast.Subscript) and isinstance(a.targets[0].value, ast.Name) and unparse(a.value) in ("np.nan", "numpy.nan"):
+                var = a.targets[0].value.id
                 mask = a.targets[0].slice
                 mtxt = unparse(mask)
                 if isinstance(mask, ast.Name):
@@ -210,7 +214,7 @@ def rule_ndvmap(ctx) -> RuleResult:
                             mtxt = unparse(d.value)
                 if "== FLOAT_NDV" in mtxt and var in mtxt:
                     found = True
-        res.inst(f"{spec}: {var}[{var} == FLOAT_NDV] = np.nan", nontrivial=True, ok=found)
+        res.inst(f"{spec}: <array>[<array> == FLOAT_NDV] = np.nan", nontrivial=True, ok=found)
         if not found:
             res.find("H5Reader", spec.split(".")[1], "FLOAT_NDV not mapped back to NaN", fn.where, "stored gaps come back as 1.17e-38 instead of NaN")
     fv = p.func("NumericData.format_values")
